@@ -14,7 +14,8 @@ ASSUMPTIONS = [
     "list aliasing as such is not judged, only its observable consequence (a child list holding another cell's children)",
     "VROOM on non-binary partitions, GPO without budget etc. crash (known findings of C01); the tree is judged up to the crash",
 ]
-FLOOR = {"tree_walks": {"quick": 50000, "thorough": 1000000}, "contract_evaluations": {"quick": 5000, "thorough": 100000}}
+FLOOR = {"tree_walks": {"quick": 50000, "thorough": 400000},
+         "contract_evaluations": {"quick": 5000, "thorough": 40000}}
 WALL = {"quick": 1200, "thorough": 4 * 3600}
 
 
@@ -37,7 +38,7 @@ def gen_cases(rng, tier, count=None):
                 c["reward"]["family"] = str(rng.choice(["zero", "tied", "const", "twoval", "cl_step"]))
             out.append(gen.add_midqueries(rng, gen.add_queries(rng, c, 0.5), 0.25))
             continue
-        name = C.PART_NAMES_WIDE[i % len(C.PART_NAMES_WIDE)]
+        name = [x for x in C.PART_NAMES_WIDE if x[-2:] not in ("32", "64")][i % (len(C.PART_NAMES_WIDE) - 4)]
         dim = int(rng.integers(1, 4))
         c = {"kind": "partition", "part": name, "box": C.gen_box(rng, dim)[0], "np_seed": int(rng.integers(1 << 30)),
              "ops_seed": int(rng.integers(1 << 30)), "steps": int(rng.integers(6, 30)),
